@@ -327,6 +327,21 @@ def run(chk):
         uargs = [show(strip(a)) for a in us[0]["a"]] if us else []
         if len(us) != 1 or len(uargs) < 4 or uargs[0] != v_sg or uargs[2] != v_sv or v_pr not in uargs[3]:
             chk.violation(r_rep, key + ":segment", "%s: segment/perforation range of the replaced connection are not restored (updateSegment%s)" % (key, uargs), f["file"], f["l"])
+        # a connection is ADDED when the look-up finds nothing and REPLACED in place otherwise
+        br = [n for n in walk(f["body"]) if n["k"] == "If" and n.get("else") is not None and any(x.get("k") == "Ref" and x.get("n") == P for x in walk(n["cond"])) and any(meth(x)[0] in ("end", "cend") for x in walk(n["cond"]))]
+        okb = False
+        if len(br) == 1:
+            c_ = strip(br[0]["cond"])
+            eq = c_.get("k") in ("Bin", "OpCall") and c_.get("op") == "=="
+            ne = c_.get("k") in ("Bin", "OpCall") and c_.get("op") == "!="
+            add_in_then = any(meth(x)[0] == "addConnection" for x in walk(br[0]["then"]))
+            add_in_else = any(meth(x)[0] == "addConnection" for x in walk(br[0]["else"]))
+            over_in_then = any(x is over[0] for x in walk(br[0]["then"]))
+            over_in_else = any(x is over[0] for x in walk(br[0]["else"]))
+            okb = (eq and add_in_then and over_in_else and not add_in_else) or (ne and add_in_else and over_in_then and not add_in_then)
+        chk.instance(r_rep, key + ":branch", sample=dict(function=key, test=show(br[0]["cond"])[:80] if br else None, ok=okb))
+        if not okb:
+            chk.violation(r_rep, key + ":branch", "%s must add a new connection exactly when the look-up of the cell ends at end() and overwrite the found element otherwise (test: %s): with the branches swapped an existing connection is duplicated and a missing one is written through end()" % (key, show(br[0]["cond"])[:80] if br else "not found"), f["file"], br[0]["l"] if br else f["l"])
         # nothing else writes the container
         other = []
         for c in walk(f["body"]):
@@ -535,6 +550,58 @@ def run(chk):
                 chk.violation(r_fr, key, "%s applies net-to-gross to component [%s] of %s: NTG scales the vertical extent, component [2] of a grid-ordered triple" % (f["q"], show(idx), bname), f["file"], n["l"])
             elif bname in permuted:
                 chk.violation(r_fr, key, "%s applies net-to-gross to %s[2] after %s has been permuted into the completion's order: for X/Y completions this scales the extent along the well bore instead of the vertical one (Kh, r0 and CF of a defaulted COMPDAT then deviate from the Peaceman values)" % (f["q"], bname, bname), f["file"], n["l"])
+    # ---- C06.zero: the record's one-based cell numbers
+    r_zr = chk.rule("C06.zero", "COMPDAT: I, J, K1, K2 are one-based in the record and zero-based in the connection: each is the item's integer minus 1 (I and J fall back to the well head when defaulted or 0), and the connections are created for every layer k = K1 .. K2 inclusive", floor=5)
+    lc = fx.fn1("Opm::WellConnections::loadCOMPDAT")
+    itemvar = {}
+    for n in walk(lc["body"]):
+        if n["k"] == "Decl":
+            for v in n["vars"]:
+                i0 = strip(v.get("init") or {})
+                if i0.get("k") == "MCall" and i0.get("m") == "getItem":
+                    lit = [x["v"] for x in walk(i0) if x["k"] == "Str"]
+                    if lit:
+                        itemvar[v["n"]] = lit[0]
+
+    def item_of(e):
+        """record item whose integer e reads, if e is <item>.get<int>(0)"""
+        e = strip(e)
+        if e.get("k") in ("MCall", "Call") and (e.get("m") == "get" or (e.get("fn") or "").endswith("DeckItem::get")):
+            o = strip(e.get("obj") or {})
+            if o.get("k") == "Ref" and o.get("n") in itemvar:
+                return itemvar[o["n"]]
+            lit = [x["v"] for x in walk(o) if x["k"] == "Str"]
+            if lit:
+                return lit[0]
+        return None
+    seen_z = {}
+    for n in walk(lc["body"]):
+        if n["k"] != "Decl":
+            continue
+        for v in n["vars"]:
+            if not isinstance(v.get("init"), dict):
+                continue
+            for x in walk(v["init"]):
+                if x["k"] == "Bin" and x.get("op") in ("-", "+") and item_of(x["c"][0]) in ("I", "J", "K1", "K2"):
+                    seen_z[item_of(x["c"][0])] = (v["n"], x["op"], strip(x["c"][1]).get("v"), x["l"])
+            if item_of(v["init"]) in ("I", "J", "K1", "K2") and item_of(v["init"]) not in seen_z:
+                seen_z[item_of(v["init"])] = (v["n"], None, None, n["l"])
+    for it in ("I", "J", "K1", "K2"):
+        got = seen_z.get(it)
+        chk.instance(r_zr, "item:" + it, sample=dict(item=it, local=got[0] if got else None, op=got[1] if got else None, offset=got[2] if got else None))
+        if not got or got[1] != "-" or got[2] != 1:
+            chk.violation(r_zr, "item:" + it, "loadCOMPDAT turns item %s into a cell index as `item %s %s`; the record counts from 1 and the grid from 0, so it must be item - 1: the connection lands in a neighbouring cell" % (it, got[1] if got else "", got[2] if got else "(not found)"), lc["file"], got[3] if got else lc["l"])
+    kl = [n for n in stmt_list(lc["body"]) if n["k"] == "For"]
+    okk = False
+    if len(kl) == 1 and seen_z.get("K1") and seen_z.get("K2"):
+        ini = [(v["n"], show(strip(v.get("init") or {}))) for d in walk(kl[0].get("init") or {}) if d["k"] == "Decl" for v in d["vars"]]
+        cnd = show(strip(kl[0]["cond"])).replace(" ", "")
+        inc = show(kl[0].get("inc") or {})
+        okk = len(ini) == 1 and ini[0][1] == seen_z["K1"][0] and cnd == "(%s<=%s)" % (ini[0][0], seen_z["K2"][0]) and "++" in inc
+        chk.instance(r_zr, "layers", sample=dict(init=ini, cond=cnd, step=inc))
+    if not okk:
+        chk.violation(r_zr, "layers", "loadCOMPDAT must create a connection in every layer K1 <= k <= K2 of the record (for (k = K1; k <= K2; ++k))", lc["file"], kl[0]["l"] if kl else lc["l"])
+
     # ---- C06.fresh: a defaulting sentinel is set in the iteration that tests it
     r_fs = chk.rule("C06.fresh", "in the connection-building loops (one iteration per cell of a COMPDAT/COMPTRAJ record), a quantity that is tested against a numeric sentinel and then given its default from the current cell (if (x.r0 < 0) x.r0 = f(cell)) has been assigned earlier in the SAME iteration - its variable is declared in the loop body or an unconditional assignment precedes the test - unless the value is meant to outlive the loop (it is read after it)", floor=4)
 
@@ -594,7 +661,7 @@ def run(chk):
                         limit = min([ti] + ([g for g in goto_pos] if is_label else []))
                         pre = [u for u in tops[:limit] if assigns(u) and assigns(u)[1] in (path, base)]
                         chk.instance(r_fs, key, sample=dict(function=f["q"], quantity=path, test_line=iff["l"], declared_in_iteration=fresh, assigned_before_test=[u["l"] for u in pre], read_after_loop=after))
-                        if not fresh and not pre and not after:
-                            chk.violation(r_fs, key, "%s: `%s` is tested against its sentinel at line %d and defaulted from the current cell, but nothing in the loop body (line %d) sets it before the test and its variable is declared outside the loop: from the second iteration on the test sees the previous cell's value, so the default of the first cell is kept for every later cell of the record" % (f["q"], path, iff["l"], lp["l"]), f["file"], iff["l"])
+                        if not pre and not after:
+                            chk.violation(r_fs, key, "%s: `%s` is tested against its sentinel at line %d and defaulted from the current cell, but nothing in the loop body (line %d) sets it unconditionally before the test%s" % (f["q"], path, iff["l"], lp["l"], ": its variable is freshly value-initialised in every iteration, so the sentinel (a negative number) is never there and the record's explicit/defaulted distinction is lost" if fresh else " and its variable is declared outside the loop: from the second iteration on the test sees the previous cell's value, so the default of the first cell is kept for every later cell of the record"), f["file"], iff["l"])
 
     chk.assumptions += ["dimension table FIELDS/CELL in rules/C06.py (CF and Kh are L^3 in SI, Ke L^2, radii and lengths L, skin and the Peaceman denominator dimensionless); numeric literals are dimension-polymorphic (sentinels such as -1.0)"]
